@@ -114,6 +114,8 @@ class Fn:
                 raise Unsupported("comprehension over something other than range(a, b, c)")
             a, b_, c = (self.expr(x) for x in it.args)
             return f"(map (fun {g.target.id} => {self.expr(e.elt)}) (py_range {a} {b_} {c}))"
+        if isinstance(e, ast.Call) and ast.unparse(e.func) == "np.abs" and len(e.args) == 1 and not e.keywords:
+            return f"(Z.abs {self.expr(e.args[0])})"
         if isinstance(e, ast.Call) and isinstance(e.func, ast.Name):
             f = e.func.id
             if f == "int" and len(e.args) == 1 and not e.keywords:
@@ -562,6 +564,42 @@ def tr_create_pins(tree):
     return "Definition create_write_source_pins : bool := true."
 
 
+def tr_balance_filters(tree):
+    """the element-wise masks of the balancing filters, per pixel: b1, b2 = the pixel's bin ids, c1, c2 = their
+    chromosome ids; the masked assignment `data[mask] = 0`, the binarisation and the marginal's bincounts are pinned"""
+    out = []
+    f = find(tree, "_zero_diags")
+    st = strip_doc(f.body)
+    pin(st[0], "pixels = chunk['pixels']")
+    if not (isinstance(st[1], ast.Assign) and ast.unparse(st[1].targets[0]) == "mask"):
+        raise Unsupported("_zero_diags: mask assignment")
+    fn = Fn(attrs={"pixels['bin1_id']": "b1", "pixels['bin2_id']": "b2"}, may_raise=False)
+    out.append(f"Definition bal_diag_mask (b1 b2 n_diags : Z) : bool := {fn.expr(st[1].value)}.")
+    pin(st[2], "data[mask] = 0")
+    pin(st[3], "return data")
+    for name, gname in (("_zero_trans", "bal_trans_mask"), ("_zero_cis", "bal_cis_mask")):
+        f = find(tree, name)
+        st = strip_doc(f.body)
+        pin(st[0], "chrom_ids = chunk['bins']['chrom']")
+        pin(st[1], "pixels = chunk['pixels']")
+        if not (isinstance(st[2], ast.Assign) and ast.unparse(st[2].targets[0]) == "mask"):
+            raise Unsupported(name + ": mask assignment")
+        fn = Fn(attrs={"chrom_ids[pixels['bin1_id']]": "c1", "chrom_ids[pixels['bin2_id']]": "c2"}, may_raise=False)
+        out.append(f"Definition {gname} (c1 c2 : Z) : bool := {fn.expr(st[2].value)}.")
+        pin(st[3], "data[mask] = 0")
+        pin(st[4], "return data")
+    b = strip_doc(find(tree, "_binarize").body)
+    pin(b[0], "data[data != 0] = 1")
+    pin(b[1], "return data")
+    m = ast.unparse(find(tree, "_marginalize"))
+    for needle in ["offdiag = np.where(pixels['bin1_id'] == pixels['bin2_id'], 0, data)",
+                   "marg = np.bincount(pixels['bin1_id'], weights=data, minlength=n) + np.bincount(pixels['bin2_id'], weights=offdiag, minlength=n)"]:
+        if needle not in m:
+            raise Unsupported("_marginalize: pinned line changed: " + needle[:50])
+    out.append("Definition balance_filter_pins : bool := true.")
+    return "\n".join(out)
+
+
 ITEMS = [
     ("core/_rangequery.py", "comes_before", lambda t: tr_cmp(t, "_comes_before", "comes_before")),
     ("core/_rangequery.py", "contains", lambda t: tr_cmp(t, "_contains", "contains")),
@@ -575,6 +613,7 @@ ITEMS = [
     ("_reduce.py", "multseq_scan", tr_multseq),
     ("create/_ingest.py", "validate_pixels_source_pins", tr_validate),
     ("create/_create.py", "create_write_source_pins", tr_create_pins),
+    ("_balance.py", "balance_filter_pins", tr_balance_filters),
 ]
 
 
